@@ -60,6 +60,27 @@ def matches(finding, violation):
     return bool(m)
 
 
+def scan_assumptions():
+    """mechanical scan (every run) for facts the verifier ASSUMES without proof: tagged `assume(...)` calls in the trusted
+    library contracts and in ghost code of the sidecar contracts, abstract / trusted contract classes"""
+    import glob
+    import re
+    tags, abstract = {}, []
+    for path in sorted(glob.glob(os.path.join(ROOT, "contracts", "*.py")) + [os.path.join(ROOT, "pyvc", "library.py"),
+                                                                             os.path.join(ROOT, "pyvc", "builtins.py")]):
+        txt = open(path, encoding="utf-8").read()
+        rel = os.path.relpath(path, ROOT)
+        for m in re.finditer(r'"((?:trusted|definition|ghost|prophecy|assumed)[:-][^"]*)"', txt):
+            tags.setdefault(m.group(1), set()).add(rel)
+        for m in re.finditer(r"class (\w+)\([^)]*\):(?:(?!\nclass ).)*?\n    (?:abstract|trusted) = True", txt, re.S):
+            abstract.append(f"{rel}:{m.group(1)}")
+    return {"tagged_assumptions": {k: sorted(v) for k, v in sorted(tags.items())},
+            "abstract_or_trusted_contract_classes": sorted(set(abstract)),
+            "note": "`trusted:` = meaning of an external library call; `definition:` = conservative definition of a ghost / "
+                    "Skolem symbol; `ghost:` = ghost witness update; `prophecy:` = prophecy variable resolution; `assumed:` = "
+                    "pre-condition that is not established by a verified caller"}
+
+
 def run_tierb(prop, tier, seed, timeout):
     out = os.path.join(ROOT, ".scratch", f"tierb-{prop}-{os.getpid()}.json")
     os.makedirs(os.path.dirname(out), exist_ok=True)
@@ -226,6 +247,7 @@ def check_property(prop, tier, seed, jobs=None, write=True):
     if tb and tb.get("samples"):
         samples.extend({"bounded_case": s} for s in tb["samples"][:2])
     coverage = {
+        "assume_scan": scan_assumptions(),
         "obligations": n_ob, "discharged": n_proved, "refuted": len(refuted), "undecided": len(unknown),
         "checker_cmd": f"./check {prop} --tier {tier}  (pyvc over /repo's current sources; z3 "
                        f"{os.environ.get('PYVC_Z3_TIMEOUT_MS', '10000')} ms then /usr/bin/cvc5 "
